@@ -575,7 +575,7 @@ func c15SkipDelta(c *Ctx, fn *ssa.Function) (delta int64, ok bool, why string) {
 			return true
 		}
 		// an option constructor (AddCallerSkip(2)): what it returns is applied right here
-		if r.Signature.Recv() == nil && r.Signature.Results().Len() == 1 && strings.HasSuffix(r.Signature.Results().At(0).Type().String(), "zap.Option") {
+		if r.Signature.Recv() == nil && r.Signature.Results().Len() == 1 && strings.HasSuffix(TStr(r.Signature.Results().At(0).Type()), "zap.Option") {
 			return true
 		}
 		return false
